@@ -280,6 +280,16 @@ theorem cfSound_all (F : FTy) (hF : IsLemireFloat F) (q : Int) (w : Nat) (hw : w
       obtain ⟨fp2, e1, _, e3⟩ := lemire_sound_partial F hF q w hw (Or.inr (Or.inl (by omega)))
       rw [e1] at hcf; injection hcf with hcf; subst hcf; exact e3
 
+/-- non-vacuity of the negative range: an exact tie in the window (`9007199254740993·10^3 / 10^3`, to even), a normal
+result at `q = −300`, a subnormal one at `q = −330`, underflow to zero at `q = −342`; `f32`: window and subnormal -/
+example : Lemire.computeFloat FTy.f64 (-3) 9007199254740993000 false = .ok ⟨0, 1076⟩ ∧
+    Lemire.computeFloat FTy.f64 (-300) 12345678901234567 false = .ok ⟨3764213625273715, 79⟩ ∧
+    Lemire.computeFloat FTy.f64 (-330) 12345678901234567 false = .ok ⟨2498793228, 0⟩ ∧
+    Lemire.computeFloat FTy.f64 (-342) 3 false = .ok ⟨0, 0⟩ ∧
+    Lemire.computeFloat FTy.f32 (-10) 16777217 false = .ok ⟨6022912, 117⟩ ∧
+    Lemire.computeFloat FTy.f32 (-50) 16777217 false = .ok ⟨120, 0⟩ := by
+  decide +kernel
+
 /-- **what is still open of `lemire_sound`**, (2): the invalid-marked answers (`lo` all ones outside `[−27, 55]`)
 bracket the value — the estimate `hi` is at most one unit below the exact upper word, so `roundNE` is the
 rounded-down estimate or its successor. Needs `Bellerophon.round … roundDown` on the un-biased estimate related to
@@ -329,6 +339,18 @@ theorem lemire_wrapper_nonneg (F : FTy) (hF : IsLemireFloat F) (q : Int) (hq0 : 
     (hhi : num * (powFrac 10 q (w + 1)).2 ≤ (powFrac 10 q (w + 1)).1 * den) :
     extendedToFloat F fp = roundNE F.fmt num den :=
   lemire_wrapper F hF q w neg hq hw (cfSound_nonneg F hF q hq0 w (by omega)) (cfSound_nonneg F hF q hq0 (w + 1) hw)
+    h hv num den hd hlo hhi
+
+/-- the wrapper for **every** exponent: a valid answer of `lemire` for a truncated mantissa is `roundNE` of every value
+in `[w, w + 1]·10^q` — unconditional (`cfSound_all`) -/
+theorem lemire_wrapper_all (F : FTy) (hF : IsLemireFloat F) (q : Int) (hq : IsI64 q)
+    (w : Nat) (neg : Bool) (hw : w + 1 < 2 ^ 64) {fp : ExtendedFloat80}
+    (h : Lemire.lemire F ⟨w, q, neg, true⟩ false = .ok fp) (hv : 0 ≤ fp.exp)
+    (num den : Nat) (hd : 0 < den)
+    (hlo : (powFrac 10 q w).1 * den ≤ num * (powFrac 10 q w).2)
+    (hhi : num * (powFrac 10 q (w + 1)).2 ≤ (powFrac 10 q (w + 1)).1 * den) :
+    extendedToFloat F fp = roundNE F.fmt num den :=
+  lemire_wrapper F hF q w neg hq hw (cfSound_all F hF q w (by omega)) (cfSound_all F hF q (w + 1) hw)
     h hv num den hd hlo hhi
 
 /-- non-vacuity of the truncated-row range: valid answers at `q = 280` (f64), `q = 28` with a 19-digit mantissa,
